@@ -140,7 +140,13 @@ on the same manager; connection j's other end is client j.  Every step of the tw
 happens on one connection.  The only coupling: a `<name>_success` event on channel `node_result`
 is seen by the `result_handler` of *every* Protocol of the process - each compares the call's
 `node_sock` with its own socket.  `n2_stepK` models exactly that: the answer is offered to every
-connection's `n2_resultHandler`. -/
+connection's `n2_resultHandler`.
+
+The same rule holds for a node that is the *client* of k servers (k `Node.add` peers on one manager) since the fix
+`a call received by a client-side node protocol is answered on its own connection only`: client-side protocols have no
+socket (`None` for all of them - before the fix every one of them answered every call), a received call is now tagged
+with the protocol itself, `node_sock is self.__origin()`.  harness/c19.py runs that configuration on a real `Node`
+(cases `symmetric-client-peers`). -/
 
 def n2_stepK (Es : Nat → n2_Env) (ws : List n2_World) : Nat × n2_Step → List n2_World
   | (j, .answer n) =>
@@ -161,6 +167,101 @@ def n2_runK (Es : Nat → n2_Env) (ws : List n2_World) (sched : List (Nat × n2_
 /-- the steps of connection j -/
 def n2_proj (j : Nat) (sched : List (Nat × n2_Step)) : List n2_Step :=
   sched.filterMap (fun js => if js.1 = j then some js.2 else none)
+
+/-! ## the symmetric composition: both peers originate calls on one connection; the send firewall
+
+Both ends are the same `Protocol` class: each end has its own id counter (`__nid`), its own table of
+waiting calls (`__events`), its own receive buffer, its own firewalls and its own application (handlers
+for the calls the peer makes).  Each direction has ONE byte stream: the calls a side makes and the
+answers it gives to the peer's calls are written to the same stream (`side.out`), in the order in which
+they were written, and are read by the peer in arbitrary cuts.  `ns_act` is what one side does (`me`) in
+one step; `ns_step` lets A (`false`) or B (`true`) act.  As in `n2_step` every step is one call of a model
+function plus plumbing of its effects.
+
+The send firewall (protocol.py `send`):
+
+    if self.__send_event_firewall and not self.__send_event_firewall(event, self.__sock):
+        yield Value(event, self)
+
+the generator the caller waits on yields ONE empty `Value` at once and ends: no id is consumed, nothing is
+registered in `__events`, nothing is written.  The caller is therefore not left waiting; what it is resumed
+with is the empty `Value` (value `None`), the same it gets from a peer whose receive firewall refused the
+call.  `blocked` records these calls. -/
+
+structure ns_Side where
+  p : Proto := {}
+  out : Bytes := []                         -- written by this side, not yet read by the peer
+  todo : List Ev := []                      -- calls this side is still going to make
+  running : List (Ev × J × Nat) := []       -- dispatched here, handler not yet returned (event, id, k)
+  fired : List (Ev × J) := []               -- every dispatch on this side, in order
+  resolved : List (Nat × J × J) := []       -- every answer accepted by this side: (id, value, errors)
+  yielded : List (Nat × List J × J) := []   -- what this side's waiting generators yielded
+  blocked : List Ev := []                   -- calls refused by this side's own send firewall
+
+structure ns_World where
+  a : ns_Side := {}
+  b : ns_Side := {}
+  aborted : Bool := false
+
+/-- a two-party environment plus A's application (handlers for the calls B makes) -/
+structure ns_Env where
+  base : n2_Env
+  behA : Nat → Ev → Option (J × List (String × J))
+
+inductive ns_Op where
+  | send
+  | deliver (n : Nat)      -- the acting side reads the next ≤ n bytes the peer wrote
+  | answer (id : Nat)      -- a handler running on the acting side returns
+  | poll (id : Nat)        -- a generator waiting on the acting side is resumed
+
+/-- after a read: dispatched calls start running, firewall refusals go on the wire, answers are recorded -/
+def ns_absorb (dumps : J → Bytes) (s : ns_Side) : List Eff → ns_Side
+  | [] => s
+  | .fire e id :: r =>
+    ns_absorb dumps { s with running := s.running ++ [(e, id, s.fired.length)], fired := s.fired ++ [(e, id)] } r
+  | .write pkt :: r => ns_absorb dumps { s with out := s.out ++ wire (dumps pkt) } r
+  | .resolve n v er :: r => ns_absorb dumps { s with resolved := s.resolved ++ [(n, v, er)] } r
+
+/-- one step of one side: (me', peer', a read handler raised) -/
+def ns_act (c : Cfg) (parse : Bytes → PRes) (dumps : J → Bytes)
+    (beh : Nat → Ev → Option (J × List (String × J))) (me peer : ns_Side) : ns_Op → ns_Side × ns_Side × Bool
+  | .send =>
+    match me.todo with
+    | [] => (me, peer, false)
+    | e :: rest =>
+      let r := send c me.p e false
+      ({ me with p := r.1, todo := rest, out := me.out ++ n2_wire dumps r.2,
+                 blocked := if c.sendOk e then me.blocked else me.blocked ++ [e] }, peer, false)
+  | .deliver n =>
+    let r := recv c parse me.p (peer.out.take n)
+    (ns_absorb dumps { me with p := r.1 } r.2.1, { peer with out := peer.out.drop n }, r.2.2)
+  | .answer n =>
+    match me.running.find? (fun r => r.2.1.natKey == some n) with
+    | none => (me, peer, false)
+    | some (e, id, k) =>
+      let me' := { me with running := me.running.eraseP (fun r => r.2.1.natKey == some n) }
+      match beh k e with
+      | some va => ({ me' with out := me'.out ++ n2_wire dumps [sendResult c id va.1 va.2] }, peer, false)
+      | none => (me', peer, false)      -- the handler raised: no `_success` event, no answer
+  | .poll n =>
+    match poll me.p n with
+    | some pe =>
+      if pe.finished then
+        ({ me with p := finish me.p n, yielded := me.yielded ++ [(n, pe.values, pe.errors)] }, peer, false)
+      else (me, peer, false)
+    | none => (me, peer, false)
+
+def ns_step (E : ns_Env) (w : ns_World) : Bool × ns_Op → ns_World
+  | (false, op) =>
+    let r := ns_act E.base.cA E.base.parse E.base.dumps E.behA w.a w.b op
+    { a := r.1, b := r.2.1, aborted := w.aborted || r.2.2 }
+  | (true, op) =>
+    let r := ns_act E.base.cB E.base.parse E.base.dumps E.base.beh w.b w.a op
+    { a := r.2.1, b := r.1, aborted := w.aborted || r.2.2 }
+
+def ns_run (E : ns_Env) (w : ns_World) (sched : List (Bool × ns_Op)) : ns_World := sched.foldl (ns_step E) w
+/-- fresh protocols; the calls A and the calls B are going to make -/
+def ns_init (callsA callsB : List Ev) : ns_World := { a := { todo := callsA }, b := { todo := callsB } }
 
 end Node
 end CV
